@@ -200,6 +200,16 @@ static void run_smooth(uint64_t seed, unsigned feat, int nbody, int nrep, unsign
       for (int i = 0; i < nv; i++) FD[i * nv + j] = (fp[i] - fm[i]) / (2 * eps);
     }
     printf("FDS %d", nv); pd(FD, nv * nv); printf("\n");
+    // the same differences with eps/4 and eps/16: a finite-difference value is used as oracle only where it has converged
+    for (int lvl = 1; lvl <= 2; lvl++) {
+      mjtNum e2 = lvl == 1 ? eps / 4 : eps / 16;
+      for (int j = 0; j < nv; j++) {
+        mj_copyData(d2, m, d); d2->qvel[j] = d->qvel[j] + e2; smooth_force(m, d2, fp);
+        mj_copyData(d2, m, d); d2->qvel[j] = d->qvel[j] - e2; smooth_force(m, d2, fm);
+        for (int i = 0; i < nv; i++) FD[i * nv + j] = (fp[i] - fm[i]) / (2 * e2);
+      }
+      printf(lvl == 1 ? "FDS4 %d" : "FDS16 %d", nv); pd(FD, nv * nv); printf("\n");
+    }
     // forces (magnitude for the tolerance) and clamp information
     mj_copyData(d2, m, d); smooth_force(m, d2, fp);
     printf("FRC"); pd(fp, nv); printf("\n");
@@ -238,7 +248,13 @@ static void run_smooth(uint64_t seed, unsigned feat, int nbody, int nrep, unsign
         mjtNum x = lvel[3] - lwind[3], y = lvel[4] - lwind[4], z = lvel[5] - lwind[5];
         mjtNum a = (sz[1] * sz[2]) * (sz[1] * sz[2]), b = (sz[2] * sz[0]) * (sz[2] * sz[0]), c = (sz[0] * sz[1]) * (sz[0] * sz[1]);
         mjtNum den = a * a * x * x + b * b * y * y + c * c * z * z, num = a * x * x + b * y * y + c * z * z;
-        printf("GUARD %d %d %a\n", g, m->geom_bodyid[g], (double)sqrt(num * num * num * den));
+        // the quantity guarded since /repo 186c34282: sqrt(num_n^3 * denom_n) on the unit direction and (a,b,c)/max
+        mjtNum sp = sqrt(x * x + y * y + z * z), smax = a > b ? (a > c ? a : c) : (b > c ? b : c);
+        mjtNum an = a / smax, bn = b / smax, cn = c / smax, xn = sp > 0 ? x / sp : 0, yn = sp > 0 ? y / sp : 0, zn = sp > 0 ? z / sp : 0;
+        mjtNum numn = an * xn * xn + bn * yn * yn + cn * zn * zn, denn = an * an * xn * xn + bn * bn * yn * yn + cn * cn * zn * zn;
+        // plus the quantities mjd_kutta_lift guards with an absolute mjMINVAL: proj_denom, norm^2, sqrt(proj_denom*proj_num*norm^2)
+        printf("GUARD %d %d %a %a %a %a %a %a %a\n", g, m->geom_bodyid[g], (double)sqrt(num * num * num * den), (double)sqrt(numn * numn * numn * denn), (double)sp,
+               (double)den, (double)(sp * sp), (double)sqrt(den * num * sp * sp), (double)m->geom_fluid[mjNFLUID * g + 4]);
       }
     }
     // linear-terms model inputs
